@@ -62,8 +62,9 @@ ASSUMPTIONS = [
     "ValueError); no application callbacks",
     "text is str (valid UTF-8); bytes that do not decode are outside the "
     "statement",
-    "transport failures after a successful open (read errors, short bodies) "
-    "are outside the statement and are not injected here",
+    "read failures of a resource that could be opened (I/O error, reset, "
+    "timeout) are injected as OSError family only; MemoryError and the like "
+    "from read() are not user input and pass through",
     "validator.main is driven with existing files only (argparse's own "
     "handling of unreadable paths is not ZConfig's)",
 ]
@@ -375,6 +376,12 @@ def generate(rng, tier, index):
     if mode in ("graph", "mixed") and rng.random() < 0.3 and len(urls) > 1:
         faults.append({"seam": "open", "at": rng.randint(0, len(urls) - 1),
                        "kind": rng.choice(OPEN_KINDS)})
+    if mode in ("graph", "mixed", "content") and rng.random() < 0.12 \
+            and not faults:
+        # the resource opens but cannot be read (I/O error, reset, timeout)
+        faults.append({"seam": "read", "at": rng.randint(0, len(urls) - 1),
+                       "kind": rng.choice(["read-eio", "read-reset",
+                                           "read-timeout"])})
     entry = rng.choice(["url", "url", "path", "file", "file-nourl"])
     if entry == "path" and not top.startswith("file:///sim/"):
         entry = "url"
